@@ -27,11 +27,11 @@ TIERS = {
     "quick": {"worlds": 160, "wall": 150, "cap": 20, "limit": 90.0, "max_points": 40},
     "thorough": {"worlds": 2400, "wall": 1500, "cap": 80, "limit": 240.0, "max_points": 64},
 }
-GATES = ("stops.deadline.with_display_rows", "stops.iter", "stops.deadline", "stops.deadline.inner", "stops.iter.reused_solver", "nontrivial")
+GATES = ("reference.with_failed_trials", "stops.deadline.with_display_rows", "stops.iter", "stops.deadline", "stops.deadline.inner", "stops.iter.reused_solver", "nontrivial")
 
 
 def generate(rng, seed, index, tier):
-    fam = str(rng.choice(["qp", "nlp", "degenerate", "domain", "infeasible"], p=[0.35, 0.35, 0.1, 0.1, 0.1]))
+    fam = str(rng.choice(["qp", "nlp", "degenerate", "domain", "infeasible", "saddle", "expo"], p=[0.3, 0.3, 0.08, 0.08, 0.08, 0.08, 0.08]))
     spec, x0, y0 = gen.gen_problem(rng, fam)
     kw = gen.gen_params(rng, spec, x0, y0, p_knob=0.5, reporting=False)
     if rng.random() < 0.4:
@@ -47,7 +47,15 @@ def generate(rng, seed, index, tier):
         kw["display_interval"] = float(rng.choice([0.0, 0.1]))
     pts_seed = int(rng.integers(0, 2**31))
     clock = {"steps": [], "tail": float(rng.choice([0.0, 0.03]))} if kw["display_interval"] < 1e17 else None
-    return gen.base_world(seed, ID, index, spec, x0, y0, kw, clock=clock, case={"max_points": TIERS[tier]["max_points"], "pts_seed": pts_seed})
+    faults = []
+    if rng.random() < 0.25:
+        # a persistent, state-free failing region: reference and stopped runs meet the same failed
+        # trial steps, and stops land right after them
+        a = np.round(rng.normal(size=spec["n"]), 2)
+        if np.any(a):
+            comp = str(rng.choice(["obj", "grad", "cons", "jac"])) if spec["m"] else str(rng.choice(["obj", "grad"]))
+            faults = [{"dev": "eval", "comp": comp, "kind": "nan", "region": {"a": a.tolist(), "b": float(a @ np.asarray(x0, float)) + float(rng.choice([0.05, 0.5]))}}]
+    return gen.base_world(seed, ID, index, spec, x0, y0, kw, clock=clock, faults=faults, case={"max_points": TIERS[tier]["max_points"], "pts_seed": pts_seed})
 
 
 def _points(all_pts, maxn, seed, must=()):
@@ -122,6 +130,8 @@ def case(world):
     if TR == 0 or (TR and R.trials[-1].exc is not None and TR == 1):
         return {"violations": [], "stats": stats, "keys": [], "executions": 1, "sample": None}
     racc = chain_accept(R)
+    if any((not t.accepted) and t.out is t.inp for t in R.trials):
+        bump("reference.with_failed_trials")
     rt = R.ref_transform()
     rdig = R.traj_digest()
     ctx0 = {"knobs": knob_key(world)}
